@@ -7,7 +7,7 @@ from plasTeX import Command
 
 
 class newcounter(Command):
-    args = 'name:str [ within ]'
+    args = 'name:str [ within:str ]'
     def invoke(self, tex):
         a = self.parse(tex)
         self.ownerDocument.context.newcounter(a['name'], a['within'])
